@@ -27,7 +27,11 @@ ANCHORS = ["resolver/plan.py::highest_iter_sort", "resolver/plan.py::lowest_iter
            "resolver/plan.py::pkg_sort_highest", "resolver/plan.py::merge_plan.prefer_highest_version_strategy",
            "resolver/plan.py::merge_plan.prefer_reuse_strategy", "resolver/plan.py::merge_plan.prefer_livefs_dbs",
            "repository/misc.py::multiplex_sorting_repo", "repository/misc.py::caching_repo",
-           "ebuild/resolver.py::upgrade_resolver", "ebuild/resolver.py::min_install_resolver"]
+           "ebuild/resolver.py::upgrade_resolver", "ebuild/resolver.py::min_install_resolver",
+           "resolver/plan.py::merge_plan._viable", "resolver/plan.py::merge_plan._rec_add_atom",
+           "resolver/plan.py::merge_plan.check_for_cycles", "resolver/plan.py::merge_plan.process_dependencies",
+           "resolver/plan.py::merge_plan.insert_choice", "resolver/plan.py::merge_plan.insert_blockers",
+           "resolver/choice_point.py"]
 # versions with ties: 1 / 1-r0 compare equal, 1.0 / 1.00 compare equal
 VERS = ("1", "1-r0", "1-r1", "2", "1.0", "1.00", "1.5", "3_rc1", "3", "0.9", "3_p1", "2a")
 NAMES = ("a/x", "a/y", "b/x")
@@ -272,11 +276,16 @@ def oracle_final_states(w: c15.World, must_have: int, limit=20000):
     return False
 
 
-def _resolver_can(scn, w, best) -> bool:
-    """does the same resolver succeed, with a valid plan, when asked for exactly the version of `best`?"""
+def _resolver_can(scn, w, best, tindex=0) -> bool:
+    """does the same resolver succeed, with a valid plan, when target number `tindex` asks for exactly the
+    version of `best` (the other targets unchanged, same order, same resolver object)?"""
     nv = len(scn["vdb"])
     cpv = scn["vdb"][best][0] if best < nv else scn["src"][best - nv][0]
-    scn2 = dict(scn, targets=["=" + cpv])
+    tg = list(scn["targets"])
+    tg[tindex] = "=" + cpv
+    if len(set(tg)) != len(tg):
+        tg = list(dict.fromkeys(tg))
+    scn2 = dict(scn, targets=tg)
     w2 = c15.World(scn2)
     r = w2.resolve()
     if isinstance(r, Err) or r[0] != "ok":
@@ -284,49 +293,133 @@ def _resolver_can(scn, w, best) -> bool:
     return not c15.py_check(w2, r[1])
 
 
-def policy(chk: Check):
-    rng = chk.rng
-    n = chk.n(400, 8000)
-    stats = {"runs": 0, "ok": 0, "upgrade_checked": 0, "upgrade_highest_unresolvable": 0, "min_checked": 0,
-             "twice_same": 0, "oracle_no_verdict": 0}
-    bad = []
-    todo = corpus_scenarios()
-    for _ in range(n):
-        scn = c15.gen_scenario(rng)
-        scn["kind"] = rng.choice(("upgrade", "min"))
-        scn["targets"] = scn["targets"][:1]
-        todo.append(scn)
-    for scn in todo:
-        try:
-            w = c15.World(scn)
-        except Exception:  # noqa: BLE001
-            continue
-        r1 = w.resolve()
-        r2 = c15.World(scn).resolve()
-        stats["runs"] += 1
-        # determinism: same verdict, same ops
-        if repr(r1) != repr(r2):
-            if not (isinstance(r1, Err) and isinstance(r2, Err)):
-                bad.append({"what": "two resolutions of identical inputs differ", "input": scn,
-                            "first": r1 if not isinstance(r1, Err) else r1.kind,
-                            "second": r2 if not isinstance(r2, Err) else r2.kind})
-            continue
-        stats["twice_same"] += 1
-        if isinstance(r1, Err) or r1[0] != "ok":
-            continue
-        stats["ok"] += 1
-        ops = r1[1]
-        fin = set(c15.final_state(w, ops))
-        t = w.targets[0]
+def _resolver_can_keep(scn, w, tindex) -> bool:
+    """min-install counterpart of _resolver_can: with the source candidates of target `tindex` taken away
+    (so that only installed packages can satisfy it), does the same resolver return a valid plan?"""
+    nv = len(scn["vdb"])
+    cands = set(w.match[w.atom_id[str(w.targets[tindex])]])
+    src = [e for k, e in enumerate(scn["src"]) if (nv + k) not in cands]
+    w2 = c15.World(dict(scn, src=src))
+    r = w2.resolve()
+    if isinstance(r, Err) or r[0] != "ok":
+        return False
+    return not c15.py_check(w2, r[1])
+
+
+def _presolved(scn, w, tindex) -> bool:
+    """target number `tindex` is matched by a package the plan already holds after the earlier targets
+    (merge_plan answers such an atom "pre-solved" from its state and does not look at candidates)."""
+    if tindex == 0:
+        return False
+    w2 = c15.World(dict(scn, targets=list(scn["targets"][:tindex])))
+    r = w2.resolve()
+    if isinstance(r, Err) or r[0] != "ok":
+        return False
+    fin = set(c15.final_state(w2, r[1]))
+    held = {o[1] for o in r[1] if o[0] in (0, 2)} & fin
+    t = scn["targets"][tindex]
+    return bool(held & set(w.match[w.atom_id[str(w.targets[tindex])]])) if t else False
+
+
+def gen_cycle_scenario(rng):
+    """structured family: a build-time dependency cycle reached through a DEPEND/BDEPEND edge
+    (t -> x -> y -> || ( x w )), the atom on x needed a second time (another class of t, or a second
+    target u resolved on the same resolver object), several versions of the packages on the cycle,
+    installed-vs-not variants.  No blockers, one slot: whenever the oracle finds a final state with the
+    highest version, a resolver that follows the upgrade policy must deliver it (strict judgement)."""
+    build = ("depend", "bdepend")
+    e1, e2 = rng.choice(build), rng.choice(build)
+    e3 = rng.choice(("depend", "depend", "bdepend", "rdepend"))
+    xa = rng.choice(("a/x", "a/x", ">=a/x-1", "a/x:0"))
+    src = []
+    tdeps = {e1: xa}
+    if rng.random() < 0.6:
+        again = rng.choice([c for c in c15.CLASSES if c != e1])
+        tdeps[again] = xa if rng.random() < 0.7 else "a/x"
+    if rng.random() < 0.3:
+        tdeps.setdefault("rdepend", "a/y")
+    src.append(["a/t-2", "0", tdeps])
+    src.append(["a/t-1", "0", {} if rng.random() < 0.7 else {"depend": "a/w"}])
+    if rng.random() < 0.15:
+        src.append(["a/t-3", "0", {"depend": "a/zz"}])           # highest version not resolvable
+    xvers = ["1"] if rng.random() < 0.5 else ["1", "2"]
+    for v in xvers:
+        src.append([f"a/x-{v}", "0", {e2: "a/y"} if rng.random() < 0.9 else {}])
+    anyof = rng.choice(("|| ( a/x a/w )", "|| ( a/x a/w )", "|| ( a/w a/x )", f"|| ( {xa} a/w )",
+                        "|| ( a/x a/w a/y )"))
+    yvers = ["1"] if rng.random() < 0.6 else ["1", "2"]
+    for v in yvers:
+        src.append([f"a/y-{v}", "0", {e3: anyof}])
+    src.append(["a/w-1", "0", {}])            # the way out of the build-time cycle always exists
+    if rng.random() < 0.3:
+        src.append(["a/w-2", "0", {} if rng.random() < 0.6 else {"rdepend": "a/y"}])
+    targets = ["a/t"]
+    if rng.random() < 0.55:
+        uc = rng.choice(c15.CLASSES)
+        src.append(["a/u-2", "0", {uc: rng.choice((xa, "a/x", "a/y"))}])
+        src.append(["a/u-1", "0", {}])
+        targets.append("a/u")
+        if rng.random() < 0.5:
+            targets.reverse()
+    rng.shuffle(src)
+    vdb = []
+    for cpv, slot, deps in src:
+        if cpv in ("a/x-1", "a/y-1", "a/w-1", "a/t-1", "a/u-1") and rng.random() < 0.22:
+            vdb.append([cpv, slot, dict(deps) if rng.random() < 0.6 else {}])
+    return {"vdb": vdb, "src": src, "targets": targets, "kind": "upgrade" if rng.random() < 0.8 else "min",
+            "family": "cycle"}
+
+
+def _best(w, cands):
+    best = None
+    for i in cands:
+        if best is None or w.pkgs[i] > w.pkgs[best] or (
+                w.pkgs[i] == w.pkgs[best] and w.meta[i][2] and not w.meta[best][2]):
+            best = i
+    return best
+
+
+def judge(chk, scn, stats, bad, strict):
+    """resolve twice; check determinism and the choice policy for every target.
+    strict (structured family): the oracle alone decides resolvability, and a failed resolution of a
+    resolvable target is reported too.  Otherwise the resolver must also be able to resolve the exact
+    version (greedy incompleteness is counted, not reported)."""
+    try:
+        w = c15.World(scn)
+    except Exception:  # noqa: BLE001
+        return
+    r1 = w.resolve()
+    r2 = c15.World(scn).resolve()
+    stats["runs"] += 1
+    if repr(r1) != repr(r2):
+        if not (isinstance(r1, Err) and isinstance(r2, Err)):
+            bad.append({"what": "two resolutions of identical inputs differ", "input": scn,
+                        "first": r1 if not isinstance(r1, Err) else r1.kind,
+                        "second": r2 if not isinstance(r2, Err) else r2.kind})
+        return
+    stats["twice_same"] += 1
+    if isinstance(r1, Err):
+        return
+    if r1[0] != "ok":
+        if strict and scn["kind"] == "upgrade":
+            for t in w.targets:
+                b = _best(w, w.match[w.atom_id[str(t)]])
+                if b is not None and oracle_final_states(w, b):
+                    stats["upgrade_checked"] += 1
+                    bad.append({"what": "upgrade: the highest matching version is resolvable (a valid final "
+                                        "state exists) but the resolver reports failure",
+                                "input": scn, "ops": None, "highest": w.scn_name(b), "got": []})
+                    break
+        return
+    stats["ok"] += 1
+    ops = r1[1]
+    fin = set(c15.final_state(w, ops))
+    for tindex, t in enumerate(w.targets):
         cands = w.match[w.atom_id[str(t)]]
         if len(cands) >= 2:
-            chk.nontrivial(repr(scn))
+            chk.nontrivial(repr((scn, str(t))))
         if scn["kind"] == "upgrade":
-            best = None
-            for i in cands:
-                if best is None or w.pkgs[i] > w.pkgs[best] or (
-                        w.pkgs[i] == w.pkgs[best] and w.meta[i][2] and not w.meta[best][2]):
-                    best = i
+            best = _best(w, cands)
             if best is None:
                 continue
             got = [i for i in cands if i in fin]
@@ -334,29 +427,33 @@ def policy(chk: Check):
                 # equal version present: the installed instance must have been preferred
                 inst = [i for i in cands if w.meta[i][2] and w.pkgs[i] == w.pkgs[best]]
                 if inst and not any(i in fin for i in inst):
-                    v = oracle_final_states(w, inst[0])
-                    if v:
+                    if oracle_final_states(w, inst[0]):
                         bad.append({"what": "upgrade: an installed instance of the highest version exists and is "
                                             "resolvable, but it was replaced by the source instance",
-                                    "input": scn, "ops": ops})
+                                    "input": scn, "ops": ops, "installed": [w.scn_name(i) for i in inst]})
                 stats["upgrade_checked"] += 1
+                continue
+            if _presolved(scn, w, tindex):
+                stats["presolved_by_earlier_target"] = stats.get("presolved_by_earlier_target", 0) + 1
                 continue
             v = oracle_final_states(w, best)
             if v is None:
                 stats["oracle_no_verdict"] += 1
             elif v is False:
                 stats["upgrade_highest_unresolvable"] += 1
-            elif not _resolver_can(scn, w, best):
+            elif not strict and not _resolver_can(scn, w, best, tindex):
                 # a valid final state with the highest version exists, but this (greedy, incomplete)
                 # resolver does not find one even when asked for exactly that version: not a matter of
                 # choice policy; counted, not reported
                 stats["upgrade_highest_beyond_resolver"] = stats.get("upgrade_highest_beyond_resolver", 0) + 1
             else:
                 stats["upgrade_checked"] += 1
-                bad.append({"what": "upgrade: the highest matching version is resolvable (a valid final state "
-                                    "exists and the resolver finds one when asked for exactly that version) but "
-                                    "the target was satisfied by a lower version",
-                            "input": scn, "ops": ops, "highest": w.scn_name(best),
+                bad.append({"what": "upgrade: the highest matching version is resolvable ("
+                                    + ("a valid final state exists" if strict else
+                                       "a valid final state exists and the resolver finds one when asked for "
+                                       "exactly that version")
+                                    + ") but the target was satisfied by a lower version",
+                            "input": scn, "ops": ops, "target": str(t), "highest": w.scn_name(best),
                             "got": [w.scn_name(i) for i in got]})
         else:
             inst = [i for i in cands if w.meta[i][2]]
@@ -369,11 +466,34 @@ def policy(chk: Check):
             if not keepable:
                 stats["min_installed_unkeepable"] = stats.get("min_installed_unkeepable", 0) + 1
                 continue
+            if not strict and not _resolver_can_keep(scn, w, tindex):
+                stats["min_installed_beyond_resolver"] = stats.get("min_installed_beyond_resolver", 0) + 1
+                continue
             stats["min_checked"] += 1
-            if True:
-                bad.append({"what": "min-install: the target was already satisfied by an installed package, "
-                                    "which was replaced/dropped in favour of another",
-                            "input": scn, "ops": ops, "installed": [w.scn_name(i) for i in inst]})
+            bad.append({"what": "min-install: the target was already satisfied by an installed package, "
+                                "which was replaced/dropped in favour of another",
+                        "input": scn, "ops": ops, "target": str(t), "installed": [w.scn_name(i) for i in inst]})
+
+
+def policy(chk: Check):
+    rng = chk.rng
+    stats = {"runs": 0, "ok": 0, "upgrade_checked": 0, "upgrade_highest_unresolvable": 0, "min_checked": 0,
+             "twice_same": 0, "oracle_no_verdict": 0}
+    bad = []
+    for scn in corpus_scenarios():
+        judge(chk, scn, stats, bad, strict=scn.get("family") == "cycle")
+    # random universes of C15's generator: one target, or several targets on one resolver object
+    for _ in range(chk.n(320, 8000)):
+        scn = c15.gen_scenario(rng)
+        scn["kind"] = rng.choice(("upgrade", "min"))
+        if rng.random() < 0.7:
+            scn["targets"] = scn["targets"][:1]
+        judge(chk, scn, stats, bad, strict=False)
+    base = dict(stats)
+    # structured family (strict judgement)
+    for _ in range(chk.n(250, 6000)):
+        judge(chk, gen_cycle_scenario(rng), stats, bad, strict=True)
+    stats["cycle_family"] = {k: stats[k] - base.get(k, 0) for k in ("runs", "ok", "upgrade_checked", "min_checked")}
     chk.count("policy", stats["runs"])
     chk.cov["policy"] = stats
     shown = 0
